@@ -69,6 +69,11 @@ def mc_job(rep, module, cfg, expect_violation=None, workers=16, env=None):
 
 def check_C07(rep, known):
     scen_job(rep, 'ScenShoot', 'C07', [r'C07\.', r'build', r'varmap'], known)
+    # multi-stage read-back: sol(stage).sample stage after stage on the same grids (C12 family)
+    recs, st = tlc.generate('ScenStages', 'ScenStages.cfg', 'C12', rep.tier, rep.seed, parts=16)
+    recs = [r for r in recs if len(r['sc']['kinds']) >= 2 and not r['sc']['reset'] and not r['sc']['late'] and r['sc']['pon'] == 'parent' and not r['sc']['pown']]
+    outs = engine.pool_map('stages', 'replay', recs)
+    engine.process_results(rep, recs, outs, [r'C07\.c:multi'], known)
 
 
 def check_C15(rep, known):
@@ -190,6 +195,7 @@ def check_C12(rep, known):
     engine.process_results(rep, recs, outs, [r'C12\.'], known)
     import stages as _st
     engine.process_results(rep, [{'sc': {'kind': 'clone-guess'}}], [{'results': _st.clone_guess(), 'error': None}], [r'C12\.'], known)
+    engine.process_results(rep, [{'sc': {'kind': 'parent-guess-chain'}}], [{'results': _st.parent_guess_chain(), 'error': None}], [r'C12\.'], known)
 
 
 def check_C17(rep, known):
@@ -367,6 +373,8 @@ def check_C13(rep, known):
 
 
 def check_C09(rep, known):
+    import stages as _st
+    engine.process_results(rep, [{'sc': {'kind': 'vector-interval-param'}}], [{'results': _st.vector_interval_param(), 'error': None}], [r'C09\.'], known)
     life_job(rep, [r'C09\.'], known)
     scen_job(rep, 'ScenShoot', 'C09', [r'C09\.', r'build', r'varmap'], known)
     # stages cloned from one template, each with its own parameter values (C12 family): every clone is the OCP with *its* values written in
@@ -396,6 +404,8 @@ def check_C11(rep, known):
 
 def check_C14(rep, known):
     scen_job(rep, 'ScenShoot', 'C14', [r'C14\.', r'build', r'varmap'], known)
+    import stages as _st
+    engine.process_results(rep, [{'sc': {'kind': 'clone-scale-der'}}], [{'results': _st.clone_scale_der(), 'error': None}], [r'C14\.'], known)
     # scaled states / controls as to_function arguments (C19 family): the function works on the physical values
     recs, st = tlc.generate('ScenFun', 'ScenFun.cfg', 'C19', rep.tier, rep.seed, parts=1)
     import random
